@@ -81,6 +81,13 @@ def cases_gradient(tier):
     add(2, 1, 1, 1, None, True, "mean", shared=True)
     add(2, 2, 2, 1, [True, False], True, "mean", shared=True)
     add(2, 1, 1, 1, None, True, "mean", identical=True, cw=[0.25, 0.75])
+    # a realization / perturbation whose failure shows in a constraint column only (every objective finite)
+    add(2, 1, 1, 1, None, False, "mean", fr=[True, False], K=1)
+    out[-1]["fail_in"] = "constraint"
+    add(2, 2, 1, 1, None, False, "mean", fp=[[True, False], [False, False]], K=1)
+    out[-1]["fail_in"] = "constraint"
+    add(3, 1, 2, 1, [False, True], False, "mean", fr=[False, True, False], K=1)
+    out[-1]["fail_in"] = "constraint"
     # request sequences: the function was evaluated at another point (near or far) before a gradient-only request at x, or at x itself
     for prior in ("near", "far", "same"):
         add(2, 1, 1, 1, None, False, "mean")
@@ -114,7 +121,7 @@ def cases_gradient(tier):
         yield "R%dP%dN%dJ%dK%d/mask=%s/%s/%s/fr=%s/fp=%s/w=%s%s%s" % (
             c["R"], c["P"], c["N"], c["J"], c["K"], c["mask"], "merged" if c["merge"] else "per-realization", c["est"],
             "".join("F" if f else "o" for f in c["failed_real"]), "|".join("".join("F" if f else "o" for f in row) for row in c["failed_pert"]),
-            c["cw"], "/shared" if c["shared"] else "", "/identical" if c["identical"] else "") + ("/function-first-%s" % c["prior_function"] if c.get("prior_function") else ""), c
+            c["cw"], "/shared" if c["shared"] else "", "/identical" if c["identical"] else "") + ("/function-first-%s" % c["prior_function"] if c.get("prior_function") else "") + ("/nan-in-constraint-only" if c.get("fail_in") else ""), c
 
 
 def scn_gradient(T, case):
@@ -161,6 +168,9 @@ def scn_gradient(T, case):
     ch = H.Chain(T, stubs={(MG, "_invert_linear_equations"): inv} if T.symbolic else None)
 
     def fobj(v, r, p, k, lo=0, hi=J):
+        if case.get("fail_in") == "constraint" and hi <= J:
+            # the failure of this case shows in the constraint columns only
+            return T.np.array([T.total([slope(r, j)[i] * v[i] for i in range(N)]) + c0[r, j] for j in range(lo, hi)])
         if (p is None or p < 0) and fr[r]:
             return T.np.array([np.nan] * (hi - lo))
         if p is not None and p >= 0 and fp[r][p]:
@@ -292,10 +302,86 @@ def scn_rows(T, case):
             T.prove("C02.rows.%s_gradient_uses_the_weights_in_force_for_that_function" % kind, T.close(grads[jj, 0], want, 1e-7) if not T.symbolic else T.same(grads[jj, 0], want))
 
 
+# ----------------------------------------------------------------------------------- the body of the truncated-SVD solve
+def cases_svd_body(tier):
+    for rows, n in ((1, 1), (2, 1), (3, 1), (2, 2)) + (((3, 2), (4, 3)) if tier == "thorough" else ()):
+        for what in ("consistent", "least-squares"):
+            c = {"rows": rows, "n": n, "what": what}
+            if n >= 2:
+                # products of three symbolic orthogonal factors: 'unknown' in z3 and cvc5; kept as bounded native evidence only
+                c["__concrete_only__"] = True
+            yield "rows%d-n%d/%s" % (rows, n, what), c
+
+
+def scn_svd_body(T, case):
+    """The real body of _invert_linear_equations with numpy.linalg.svd BY LIBRARY CONTRACT (LAPACK's factorisation is outside the
+    engine): svd(M) returns U (orthonormal columns), singular values s_0 >= s_1 >= ... >= 0 and an orthogonal Vt with
+    M = U[:, :k] diag(s) Vt.  Under the conditioning hypothesis of C02 (the smallest squared singular value carries at least 1%
+    of the total, so the energy cut-off at 99.9% keeps every singular value) the result is proved to be THE least-squares
+    solution: M^T M x = M^T v, and x = g for a consistent system v = M g.  This discharges, per enumerated small shape, the
+    contract that the gradient scenarios assume for the solve (InvertContract)."""
+    from roptvc import snp
+
+    rows, n = case["rows"], case["n"]
+    f = T.func(MG, "_invert_linear_equations")
+    if not T.symbolic:
+        # bounded stand-in: the same obligations with the real LAPACK factorisation on random well-conditioned systems
+        M = T.real("M", (rows, n))
+        g = T.real("g", (n,))
+        T.assume(cond_ok(np.asarray(M)))
+        v = M @ g if case["what"] == "consistent" else T.real("v", (rows,))
+        got = f(M, v)
+        if case["what"] == "consistent":
+            T.prove("C02.svd_body.consistent_system_is_solved_exactly", bool(np.allclose(got, g, rtol=1e-7, atol=1e-9)))
+        T.prove("C02.svd_body.result_satisfies_the_normal_equations", bool(np.allclose(M.T @ M @ got, M.T @ v, rtol=1e-7, atol=1e-9)))
+        return
+    k = n
+    U = T.real("U", (rows, rows))
+    sg = T.real("sigma", (k,), lo=0.0)
+    Vt = T.real("Vt", (n, n))
+    for i in range(k - 1):
+        T.assume(sg[i] >= sg[i + 1])
+    T.assume(sg[k - 1] > 0)
+    for a in range(rows):
+        for b in range(a, rows):
+            T.assume(T.same(T.total([U[r, a] * U[r, b] for r in range(rows)]), 1.0 if a == b else 0.0))
+    for a in range(n):
+        for b in range(a, n):
+            T.assume(T.same(T.total([Vt[a, c] * Vt[b, c] for c in range(n)]), 1.0 if a == b else 0.0))
+            T.assume(T.same(T.total([Vt[c, a] * Vt[c, b] for c in range(n)]), 1.0 if a == b else 0.0))
+    M = T.np.array([[T.total([U[r, j] * sg[j] * Vt[j, c] for j in range(k)]) for c in range(n)] for r in range(rows)])
+    # conditioning hypothesis of C02
+    tot = T.total([sg[j] * sg[j] for j in range(k)])
+    T.assume(sg[k - 1] * sg[k - 1] * 100.0 >= tot)
+
+    def svd(matrix, *a, **kw):
+        T.prove("C02.svd_body.factorisation_requested_for_the_given_matrix", T.same(matrix, M) and not a and not kw)
+        return U.copy(), sg.copy(), Vt.copy()
+
+    snp.LIBRARY_CONTRACTS["linalg.svd"] = svd
+    try:
+        if case["what"] == "consistent":
+            g = T.real("g", (n,))
+            v = T.np.array([T.total([M[r, c] * g[c] for c in range(n)]) for r in range(rows)])
+        else:
+            v = T.real("v", (rows,))
+        got = f(M, v)
+    finally:
+        snp.LIBRARY_CONTRACTS.pop("linalg.svd", None)
+    T.prove("C02.svd_body.result_has_one_entry_per_unknown", tuple(got.shape) == (n,))
+    if case["what"] == "consistent":
+        T.prove("C02.svd_body.consistent_system_is_solved_exactly", T.same(got, g))
+    else:
+        MtM = [[T.total([M[r, a] * M[r, b] for r in range(rows)]) for b in range(n)] for a in range(n)]
+        Mtv = [T.total([M[r, a] * v[r] for r in range(rows)]) for a in range(n)]
+        T.prove("C02.svd_body.result_satisfies_the_normal_equations", T.all([T.same(T.total([MtM[a][b] * got[b] for b in range(n)]), Mtv[a]) for a in range(n)]))
+
+
 SCENARIOS = [
     Scenario("gradient_affine", scn_gradient, cases_gradient, {"quick": 10, "thorough": 60}),
     Scenario("gradient_weight_rows", scn_rows, cases_rows, {"quick": 10, "thorough": 60}),
     Scenario("svd_solve_bounded", scn_svd, cases_svd, {"quick": 30, "thorough": 300}),
+    Scenario("svd_solve_body_by_library_contract", scn_svd_body, cases_svd_body, {"quick": 10, "thorough": 100}),
 ]
 
 MANIFEST = {
@@ -304,6 +390,6 @@ MANIFEST = {
             "to be the weight-normalised combination of the realization slopes (mean), the chain-rule gradient (stddev), zero on fixed variables, with failed "
             "perturbations/realizations excluded, given the contract of _invert_linear_equations; complete per enumerated shape. The SVD solve itself is only checked "
             "against its contract at run time (bounded), and merged estimation with several active realizations is a recorded known finding.",
-    "note": "_invert_linear_equations by assumed contract (numpy.linalg.svd is outside the engine; bounded run-time check only); floats as reals; sqrt uninterpreted; bounded in shape; known finding C02.merged.*",
+    "note": "the real body of the truncated-SVD solve is proved against LAPACK's library contract for one unknown (1-3 equations) and checked at run time beyond; _invert_linear_equations by assumed contract (numpy.linalg.svd is outside the engine; bounded run-time check only); floats as reals; sqrt uninterpreted; bounded in shape; known finding C02.merged.*",
     "technique": "contract-based deductive verification: symbolic execution of the real source under sidecar contracts (callee by contract), VCs discharged by z3/cvc5; bounded run-time contract checking for the SVD body",
 }
